@@ -172,9 +172,9 @@ fn main() {
                 let (tx, rx) = std::sync::mpsc::channel();
                 let s2 = seed ^ (ci as u64 * 31 + runs as u64);
                 let h = std::thread::spawn(move || { let r = std::panic::catch_unwind(std::panic::AssertUnwindSafe(|| run(&cc, api, order, strat, include, when, s2))); let _ = tx.send(()); r });
-                let (trace, processed, dequeued_after, finished) = match rx.recv_timeout(std::time::Duration::from_secs(10)) {
-                    Ok(()) => match h.join().unwrap() { Ok(x) => x, Err(_) => { println!("VIOLATION (C08: panic) {label}"); std::process::exit(1); } },
-                    Err(_) => { println!("VIOLATION (C08: the call did not return within 10 s) {label}"); std::process::exit(1); }
+                let (trace, processed, dequeued_after, finished) = match recv_unless_idle(&rx, 10, 900) {
+                    Some(()) => match h.join().unwrap() { Ok(x) => x, Err(_) => { println!("VIOLATION (C08: panic) {label}"); std::process::exit(1); } },
+                    None => { println!("VIOLATION (C08: the call did not return: no progress for 10 s, the thread is parked) {label}"); std::process::exit(1); }
                 };
                 let started: Vec<usize> = trace.iter().filter_map(|e| if let Ev::Start(i) = e { Some(*i) } else { None }).collect();
                 let ended: Vec<usize> = trace.iter().filter_map(|e| if let Ev::End(i) = e { Some(*i) } else { None }).collect();
